@@ -412,6 +412,8 @@ type session struct {
 	hold      chan struct{} // non-nil: the responder holds its BlocksMsg answers until this is closed
 	holding   chan struct{} // closed when the responder holds its first answer
 	holdOnce  sync.Once
+	holdWhat  string // see holdsThis
+	heldRq    string
 	relOnce   sync.Once
 	keySuffix string // appended to the message-loop-blocked key (history that differs in root cause)
 	downDone  bool
@@ -1369,7 +1371,7 @@ func (s *session) startResponder(ep *endpoint) {
 	s.respStop, s.respDone = make(chan struct{}), make(chan struct{})
 	go func() {
 		defer close(s.respDone)
-		n := 0
+		n, n512 := 0, 0
 		for {
 			select {
 			case <-s.respStop:
@@ -1378,10 +1380,15 @@ func (s *session) startResponder(ep *endpoint) {
 				return
 			case rq := <-ep.reqs:
 				n++
-				if rq.code == codeGetBlocks && s.hold != nil && bytes.Contains(rq.data, s.hashAt(s.k0).Bytes()) {
-					// "during-sync" history: the momentum that is requested last (hashes arrive in descending
-					// order, so that is the lowest one; by then nothing is left to request from other
-					// peers) is handed over only when the main flow says so
+				if rq.code == codeGetBlockHashesFrom {
+					var q wGetHashesFrom
+					if rlp.DecodeBytes(rq.data, &q) == nil && q.Amount == maxHashReply {
+						n512++ // full-size hash requests: #1 = ancestor lookup (head), #2.. = hash download
+					}
+				}
+				if s.hold != nil && s.holdsThis(rq, n512) {
+					// the answer is handed over only when the main flow says so
+					s.heldRq = fmt.Sprintf("%s %s (full-size hash request #%d)", codeName(rq.code), clip(rq.data, 12), n512)
 					s.holdOnce.Do(func() { close(s.holding) })
 					select {
 					case <-s.hold:
@@ -1407,6 +1414,31 @@ func (s *session) startResponder(ep *endpoint) {
 			}
 		}
 	}()
+}
+
+// holdsThis: which request of the node the responder answers only on release.
+//
+//	"" (during-sync history): the momentum request that comes last — hashes arrive in descending
+//	   order, so that is the one for the lowest height; by then nothing is left to request from others;
+//	"ancestor":     the first full-size hash request of a cycle (findAncestor's look at the head);
+//	"hash-phase-1": the first full-size hash request after it (fetchHashes' first request; the
+//	   single-hash requests in between are findAncestor's binary search);
+//	"hash-phase-2": the next one (by then the hashes of the first answer are scheduled).
+func (s *session) holdsThis(rq rxMsg, n512 int) bool {
+	switch s.holdWhat {
+	case "":
+		return rq.code == codeGetBlocks && bytes.Contains(rq.data, s.hashAt(s.k0).Bytes())
+	case "ancestor", "hash-phase-1", "hash-phase-2":
+		if rq.code != codeGetBlockHashesFrom {
+			return false
+		}
+		var q wGetHashesFrom
+		if rlp.DecodeBytes(rq.data, &q) != nil || q.Amount != maxHashReply {
+			return false
+		}
+		return n512 == map[string]int{"ancestor": 1, "hash-phase-1": 2, "hash-phase-2": 3}[s.holdWhat]
+	}
+	return false
 }
 
 func (s *session) stopResponder() {
